@@ -201,12 +201,21 @@ def isOk {α : Type} : Except Err α → Bool
   | .ok _ => true
   | .error _ => false
 
-/-- `discard_init_args_on_class_path_change`: keep what the new class has a parameter for and accepts -/
+/-- `discard_init_args_on_class_path_change`: keep what the new class has a parameter for and accepts.  A scalar that
+    is kept is stored as the NEW class's type reads it (the merge that follows re-validates the carried namespace: an
+    int kept for a float parameter is a float from then on); a kept class spec stays as it is. -/
 def keepArgs (rec : String → Option Val → Val → Except Err Val) (params : List IParam) (prevIa : KV) : KV :=
-  prevIa.filter (fun e =>
+  prevIa.filterMap (fun e =>
     match findParam params e.1 with
-    | none => false
-    | some p => isOk (adaptValueWith rec p.ty none e.2))
+    | none => none
+    | some p =>
+      match adaptValueWith rec p.ty none e.2 with
+      | .error _ => none
+      | .ok y =>
+        match p.ty with
+        | .scalar _ => some (e.1, y)
+        | .optScalar _ => some (e.1, y)
+        | _ => some (e.1, e.2))
 
 /-- `parser.parse_object(init_args, cfg_base=prev_init_args)`: every key must be a parameter of THIS class -/
 def mergeArgs (rec : String → Option Val → Val → Except Err Val) (params : List IParam) : KV → KV → Except Err KV
